@@ -379,3 +379,184 @@ package fsm
 //@   loop 0 invariant iter != nil && fresh(iter) && iter.bounded && iter.vP == (*reader).vP && iter.vV == (*reader).vV && iter.lo == encK(1, bytesOf((*cmp).Key)) && iter.hi == hiB((*cmp).RangeEnd)
 //@   loop 0 invariant 0 <= iter.pos && iter.pos <= cnt(iter.vP, iter.lo, iter.hi) && cnt(iter.vP, iter.lo, iter.hi) > 0 && iter.onKey == (iter.pos < cnt(iter.vP, iter.lo, iter.hi)) && (iter.onKey ==> iter.cur == nth(iter.vP, iter.lo, iter.hi, iter.pos))
 //@   loop 0 invariant forall r Int :: 0 <= r && r < iter.pos ==> cmpHolds(*cmp, iter.vV[nth(iter.vP, iter.lo, iter.hi, r)])
+
+// single-key predicate (reuses the pooled key buffer: it must be empty on entry and is emptied again
+// on every path that lets txnCompare continue with the next predicate)
+//@ func txnCompare$2
+//@   results ok, err
+//@   requires *reader != nil && cmpWF(*cmp) && *keyBuf != nil && (*keyBuf).slen == 0
+//@   ensures [C02.cmp.one]   err == nil ==> ok == holdsSingle((*reader).vP, (*reader).vV, *cmp)
+//@   ensures [C02.cmp.reuse] err == nil && ok ==> (*keyBuf).slen == 0
+//@   modifies (*keyBuf).slen, (*keyBuf).sdata
+
+// conjunction of the predicates against ONE view
+//@ func txnCompare
+//@   results ok, err
+//@   requires reader != nil && forall j int :: 0 <= j && j < len(compare) ==> cmpWF(compare[j])
+//@   ensures [C02.cmp.all]  err == nil && ok ==> forall j int :: 0 <= j && j < len(compare) ==> holds(reader.vP, reader.vV, compare[j])
+//@   ensures [C02.cmp.some] err == nil && !ok ==> exists j int :: 0 <= j && j < len(compare) && !holds(reader.vP, reader.vV, compare[j])
+//@   modifies nothing
+//@   loop 0 invariant -1 <= rangeindex && rangeindex < len(compare) && keyBuf != nil && fresh(keyBuf) && keyBuf.slen == 0
+//@   loop 0 invariant forall j int :: 0 <= j && j <= rangeindex ==> holds(reader.vP, reader.vV, compare[j])
+
+// lookup: single key vs. range dispatch
+//@ func lookup
+//@   results resp, err
+//@   requires reader != nil && req != nil
+//@   ensures [C01.lookup.single] err == nil && isNilSlice(req.RangeEnd) ==> resp != nil && fresh(resp) && !resp.More && resp.Count == (reader.vP[encK(1, bytesOf(req.Key))] ? 1 : 0)
+//@   ensures [C01.lookup.value]  err == nil && isNilSlice(req.RangeEnd) && reader.vP[encK(1, bytesOf(req.Key))] && !req.CountOnly && !req.KeysOnly ==> len(resp.Kvs) == 1 && resp.Kvs[0] != nil && bytesOf(resp.Kvs[0].Value) == reader.vV[encK(1, bytesOf(req.Key))]
+//@   ensures [C01.lookup.range]  err == nil && !isNilSlice(req.RangeEnd) && req.Limit == 0 ==> resp != nil && fresh(resp) && resp.More == (resp.Count < cnt(reader.vP, encK(1, bytesOf(req.Key)), hiB(req.RangeEnd)))
+//@   modifies nothing
+
+//@ func wrapResponseOp
+//@   ensures typeIs(req, *regattapb.ResponseOp_Range) ==> result != nil && fresh(result) && typeIs(result.Response, *regattapb.ResponseOp_ResponseRange) && asType(result.Response, *regattapb.ResponseOp_ResponseRange) != nil && asType(result.Response, *regattapb.ResponseOp_ResponseRange).ResponseRange == asType(req, *regattapb.ResponseOp_Range)
+//@   ensures typeIs(req, *regattapb.ResponseOp_Put) ==> result != nil && fresh(result) && typeIs(result.Response, *regattapb.ResponseOp_ResponsePut) && asType(result.Response, *regattapb.ResponseOp_ResponsePut) != nil && asType(result.Response, *regattapb.ResponseOp_ResponsePut).ResponsePut == asType(req, *regattapb.ResponseOp_Put)
+//@   ensures typeIs(req, *regattapb.ResponseOp_DeleteRange) ==> result != nil && fresh(result) && typeIs(result.Response, *regattapb.ResponseOp_ResponseDeleteRange) && asType(result.Response, *regattapb.ResponseOp_ResponseDeleteRange) != nil && asType(result.Response, *regattapb.ResponseOp_ResponseDeleteRange).ResponseDeleteRange == asType(req, *regattapb.ResponseOp_DeleteRange)
+//@   modifies nothing
+
+// a well-formed transaction operation: exactly one of the three request kinds, with its payload
+//@ pure func opRange(o *regattapb.RequestOp) *regattapb.RequestOp_Range = asType(o.Request, *regattapb.RequestOp_RequestRange).RequestRange
+//@ pure func opPut(o *regattapb.RequestOp) *regattapb.RequestOp_Put = asType(o.Request, *regattapb.RequestOp_RequestPut).RequestPut
+//@ pure func opDel(o *regattapb.RequestOp) *regattapb.RequestOp_DeleteRange = asType(o.Request, *regattapb.RequestOp_RequestDeleteRange).RequestDeleteRange
+//@ pure func opWF(o *regattapb.RequestOp) bool = o != nil && o.Request != nil && ((typeIs(o.Request, *regattapb.RequestOp_RequestRange) && asType(o.Request, *regattapb.RequestOp_RequestRange) != nil && opRange(o) != nil) || (typeIs(o.Request, *regattapb.RequestOp_RequestPut) && asType(o.Request, *regattapb.RequestOp_RequestPut) != nil && opPut(o) != nil) || (typeIs(o.Request, *regattapb.RequestOp_RequestDeleteRange) && asType(o.Request, *regattapb.RequestOp_RequestDeleteRange) != nil && opDel(o) != nil))
+//@ pure func respRange(r *regattapb.ResponseOp) *regattapb.ResponseOp_Range = asType(r.Response, *regattapb.ResponseOp_ResponseRange).ResponseRange
+
+// handleTxnOps: the operations are applied in order, each to the state left by the earlier ones
+// (two-state step clauses per iteration), one response per operation.
+//@ func handleTxnOps
+//@   results results, err
+//@   requires ctx != nil && ctx.batch != nil && ctx.db != nil && ctx.batch.bdb == ctx.db && ctx.batch != ctx.db
+//@   requires forall j int :: 0 <= j && j < len(req) ==> opWF(req[j])
+//@   ensures [C02.ops.count] err == nil ==> len(results) == len(req)
+//@   ensures [C02.ops.book]  err == nil ==> bookSame(ctx.batch.vP, ctx.batch.vV, old(ctx.batch.vP), old(ctx.batch.vV))
+//@   ensures [C02.ops.none]  err == nil && len(req) == 0 ==> ctx.batch == old(ctx.batch) && ctx.batch.vP == old(ctx.batch.vP) && ctx.batch.vV == old(ctx.batch.vV)
+//@   ensures ctx.index == old(ctx.index) && ctx.leaderIndex == old(ctx.leaderIndex) && ctx.db == old(ctx.db)
+//@   ensures (ctx.batch == old(ctx.batch) || fresh(ctx.batch)) && ctx.batch != ctx.db && (err == nil ==> ctx.batch != nil && ctx.batch.bdb == ctx.db)
+//@   modifies ctx.batch, ctx.batch.vP, ctx.batch.vV
+//@   loop 0 invariant -1 <= rangeindex && rangeindex < len(req) && len(results) == rangeindex + 1 && (isNilSlice(results) || fresh(results))
+//@   loop 0 invariant ctx.batch != nil && ctx.batch.bdb == ctx.db && ctx.batch != ctx.db && (ctx.batch == old(ctx.batch) || fresh(ctx.batch)) && ctx.index == old(ctx.index) && ctx.leaderIndex == old(ctx.leaderIndex) && ctx.db == old(ctx.db)
+//@   loop 0 invariant bookSame(ctx.batch.vP, ctx.batch.vV, old(ctx.batch.vP), old(ctx.batch.vV))
+//@   loop 0 invariant rangeindex == -1 ==> ctx.batch == old(ctx.batch) && ctx.batch.vP == old(ctx.batch.vP) && ctx.batch.vV == old(ctx.batch.vV)
+//@   loop 0 invariant forall j int :: 0 <= j && j <= rangeindex ==> results[j] != nil
+//@   loop 0 step [C02.ops.read] typeIs(req[rangeindex+1].Request, *regattapb.RequestOp_RequestRange) ==> ctx.batch.vP == prev(ctx.batch.vP) && ctx.batch.vV == prev(ctx.batch.vV)
+//@   loop 0 step [C02.ops.readview] typeIs(req[rangeindex+1].Request, *regattapb.RequestOp_RequestRange) && isNilSlice(opRange(req[rangeindex+1]).RangeEnd) ==> respRange(results[rangeindex+1]).Count == (prev(ctx.batch.vP)[encK(1, bytesOf(opRange(req[rangeindex+1]).Key))] ? 1 : 0)
+//@   loop 0 step [C02.ops.put] typeIs(req[rangeindex+1].Request, *regattapb.RequestOp_RequestPut) ==> forall k Bytes :: ctx.batch.vP[k] == (k == encK(1, bytesOf(opPut(req[rangeindex+1]).Key)) ? true : prev(ctx.batch.vP)[k]) && ctx.batch.vV[k] == (k == encK(1, bytesOf(opPut(req[rangeindex+1]).Key)) ? bytesOf(opPut(req[rangeindex+1]).Value) : prev(ctx.batch.vV)[k])
+//@   loop 0 step [C02.ops.del] typeIs(req[rangeindex+1].Request, *regattapb.RequestOp_RequestDeleteRange) && isNilSlice(opDel(req[rangeindex+1]).RangeEnd) ==> forall k Bytes :: ctx.batch.vP[k] == (k == encK(1, bytesOf(opDel(req[rangeindex+1]).Key)) ? false : prev(ctx.batch.vP)[k])
+
+// handleTxn: the predicates are evaluated on the (indexed) batch, i.e. on the state immediately before
+// the transaction incl. earlier commands of the same apply call; then exactly one branch is applied.
+//@ func handleTxn
+//@   results succ, res, err
+//@   requires ctx != nil && ctx.batch != nil && ctx.db != nil && ctx.batch.bdb == ctx.db && ctx.batch != ctx.db
+//@   requires forall j int :: 0 <= j && j < len(compare) ==> cmpWF(compare[j])
+//@   requires (forall j int :: 0 <= j && j < len(success) ==> opWF(success[j])) && (forall j int :: 0 <= j && j < len(fail) ==> opWF(fail[j]))
+//@   ensures [C02.branch.true]  err == nil && succ ==> (forall j int :: 0 <= j && j < len(compare) ==> holds(old(ctx.batch.vP), old(ctx.batch.vV), compare[j])) && len(res) == len(success)
+//@   ensures [C02.branch.false] err == nil && !succ ==> (exists j int :: 0 <= j && j < len(compare) && !holds(old(ctx.batch.vP), old(ctx.batch.vV), compare[j])) && len(res) == len(fail)
+//@   ensures [C02.branch.empty] err == nil && ((succ && len(success) == 0) || (!succ && len(fail) == 0)) ==> ctx.batch.vP == old(ctx.batch.vP) && ctx.batch.vV == old(ctx.batch.vV)
+//@   ensures [C02.txn.book] err == nil ==> bookSame(ctx.batch.vP, ctx.batch.vV, old(ctx.batch.vP), old(ctx.batch.vV))
+//@   ensures ctx.index == old(ctx.index) && ctx.leaderIndex == old(ctx.leaderIndex) && ctx.db == old(ctx.db)
+//@   ensures (ctx.batch == old(ctx.batch) || fresh(ctx.batch)) && ctx.batch != ctx.db && (err == nil ==> ctx.batch != nil && ctx.batch.bdb == ctx.db)
+//@   modifies ctx.batch, ctx.batch.vP, ctx.batch.vV
+
+// well-formed logged transaction command
+//@ pure func txnWF(t *regattapb.Txn) bool = t != nil && (forall j int :: 0 <= j && j < len(t.Compare) ==> cmpWF(t.Compare[j])) && (forall j int :: 0 <= j && j < len(t.Success) ==> opWF(t.Success[j])) && (forall j int :: 0 <= j && j < len(t.Failure) ==> opWF(t.Failure[j]))
+
+//@ func (commandTxn).handle
+//@   results ur, res, err
+//@   requires c.Command != nil && txnWF(c.Command.Txn)
+//@   requires ctx != nil && ctx.batch != nil && ctx.db != nil && ctx.batch.bdb == ctx.db && ctx.batch != ctx.db
+//@   ensures [C10.handle.rev] err == nil ==> res != nil && res.Revision == ctx.index && fresh(res)
+//@   ensures [C02.flag] err == nil ==> (ur == 1) == (forall j int :: 0 <= j && j < len(c.Command.Txn.Compare) ==> holds(old(ctx.batch.vP), old(ctx.batch.vV), c.Command.Txn.Compare[j]))
+//@   ensures [C02.nth]  err == nil ==> len(res.Responses) == (ur == 1 ? len(c.Command.Txn.Success) : len(c.Command.Txn.Failure))
+//@   ensures err == nil ==> ctx.batch != nil && ctx.batch.bdb == ctx.db && ctx.batch != ctx.db
+//@   ensures ctx.index == old(ctx.index) && ctx.leaderIndex == old(ctx.leaderIndex) && ctx.db == old(ctx.db)
+//@   ensures ctx.batch == old(ctx.batch) || fresh(ctx.batch)
+//@   ensures [C01.handle.book] err == nil ==> bookSame(ctx.batch.vP, ctx.batch.vV, old(ctx.batch.vP), old(ctx.batch.vV))
+//@   modifies ctx.batch, ctx.batch.vP, ctx.batch.vV
+
+// ---------------------------------------------------------------- FSM.Lookup (C01, C02, C07)
+
+// readLocalIndex: the little-endian value stored under a bookkeeping key, 0 if absent
+//@ func readLocalIndex
+//@   requires db != nil
+//@   requires [idx8] db.vP[bytesOf(indexKey)] ==> blen(db.vV[bytesOf(indexKey)]) == 8      // bookkeeping values are written by Commit as 8 bytes; a shorter value would panic in Uint64
+//@   ensures [C01.readidx.absent]  err == nil && !db.vP[bytesOf(indexKey)] ==> idx == 0
+//@   ensures [C01.readidx.present] err == nil && db.vP[bytesOf(indexKey)] && blen(db.vV[bytesOf(indexKey)]) == 8 ==> idx == unle64(db.vV[bytesOf(indexKey)])
+//@   modifies nothing
+
+// writeCommand: one user pair as the wire form of a PUT command for the table
+//@ func writeCommand
+//@   results out, err
+//@   ensures [C07.record] err == nil ==> bytesOf(out) == putCmd(bytesOf(tableName), old(bytesOf(key)), old(bytesOf(val))) && len(out) > 0
+//@   ensures fresh(out) || (out.arr == buffer.arr && out.off == buffer.off)
+//@   modifies elems(buffer)
+
+// the user-key test of the snapshot writer: stored key of type 1 with at least one key byte
+//@ pure func userKey(k Bytes) bool = blen(k) >= 6 && bat(k, 4) == 1
+// the bytes of b after the first n
+//@ uninterp func btail(b Bytes, n Int) Bytes
+//@ axiom forall b Bytes, n Int :: 0 <= n && n <= blen(b) ==> blen(btail(b, n)) == blen(b) - n
+//@ axiom forall b Bytes, n Int, i Int :: 0 <= n && 0 <= i && i < blen(b) - n ==> bat(btail(b, n), i) == bat(b, i + n)
+
+// a reader whose view cannot change between two reads: a snapshot or a batch, not the live DB
+//@ pure func stableView(r cpebble.Reader) bool = r != nil && !typeIs(r, *cpebble.DB)
+
+// commandSnapshot: walks ALL keys of one stable view in order, visiting each exactly once (the
+// iterator advances by one per iteration and the loop ends only at the end); every user pair is
+// written as exactly one PUT message, other keys produce nothing; the index returned is the applied
+// index stored in the SAME view.
+//@ func commandSnapshot
+//@   results idx, err
+//@   requires [C07.pit] stableView(reader)
+//@   requires w != nil && viewWF(reader.vP) && (reader.vP[IDX()] ==> blen(reader.vV[IDX()]) == 8)
+//@   ensures [C07.capture.index] err == nil ==> idx == (reader.vP[IDX()] ? unle64(reader.vV[IDX()]) : 0)
+//@   ensures [C07.capture.view]  reader.vP == old(reader.vP) && reader.vV == old(reader.vV)
+//@   dead return 3
+//@   before writeCommand assert bytesOf(key) == btail(iter.cur, 5)
+//@   before writeCommand assert bytesOf(val) == iter.vV[iter.cur]
+//@   modifies w.sdata, w.slen, w.nmsg, w.msg
+//@   loop 0 invariant iter != nil && fresh(iter) && iter.bounded && iter.vP == reader.vP && iter.vV == reader.vV && iter.lo == bytes_empty() && iter.hi == Btop()
+//@   loop 0 invariant 0 <= iter.pos && iter.pos <= cnt(iter.vP, iter.lo, iter.hi) && iter.onKey == (iter.pos < cnt(iter.vP, iter.lo, iter.hi)) && (iter.onKey ==> iter.cur == nth(iter.vP, iter.lo, iter.hi, iter.pos))
+//@   loop 0 invariant w.nmsg >= old(w.nmsg) && reader.vP == old(reader.vP) && reader.vV == old(reader.vV)
+//@   loop 0 invariant isNilSlice(buffer) || fresh(buffer)
+//@   loop 0 step [C07.capture.step]  iter.pos == prev(iter.pos) + 1
+//@   loop 0 step [C07.capture.user]  userKey(prev(iter.cur)) ==> w.nmsg == prev(w.nmsg) + 1 && w.msg[prev(w.nmsg)] == putCmd(bytesOf(tableName), btail(prev(iter.cur), 5), iter.vV[prev(iter.cur)])
+//@   loop 0 step [C07.capture.other] !userKey(prev(iter.cur)) ==> w.nmsg == prev(w.nmsg)
+
+// iteratorLookup: ASSUMED closure-return schema (the stream is the proved iterate$1 closure, or the
+// single-key answer wrapped by iter.From)
+//@ func iteratorLookup
+//@   assumed
+//@   requires reader != nil && req != nil
+//@   modifies nothing
+
+// a read-only transaction: every operation of both branches is a range read
+//@ pure func roOp(o *regattapb.RequestOp) bool = o != nil && typeIs(o.Request, *regattapb.RequestOp_RequestRange) && asType(o.Request, *regattapb.RequestOp_RequestRange) != nil && opRange(o) != nil
+//@ pure func roTxn(t *regattapb.TxnRequest) bool = t != nil && (forall j int :: 0 <= j && j < len(t.Compare) ==> cmpWF(t.Compare[j])) && (forall j int :: 0 <= j && j < len(t.Success) ==> roOp(t.Success[j])) && (forall j int :: 0 <= j && j < len(t.Failure) ==> roOp(t.Failure[j]))
+//@ pure func dbOf(p *FSM) Ref = p.pebble.v
+//@ pure func bookWF(vp map[Bytes]Bool, vv map[Bytes]Bytes) bool = (vp[IDX()] ==> blen(vv[IDX()]) == 8) && (vp[LIDX()] ==> blen(vv[LIDX()]) == 8)
+
+// FSM.Lookup. Read-only transaction: predicates AND operations are answered from ONE snapshot of the
+// DB taken at the start (the same answers the write path gives on that state, no effect); index
+// lookups report the bookkeeping of the current view; the table snapshot runs on a stable view.
+//@ func (*FSM).Lookup
+//@   results out, err
+//@   requires p != nil && p.pebble.v != 0 && p.log != nil && viewWF(p.pebble.v.vP) && bookWF(p.pebble.v.vP, p.pebble.v.vV)
+//@   requires typeIs(l, *regattapb.TxnRequest) ==> roTxn(asType(l, *regattapb.TxnRequest))
+//@   requires typeIs(l, *regattapb.RequestOp_Range) ==> asType(l, *regattapb.RequestOp_Range) != nil
+//@   requires typeIs(l, IteratorRequest) ==> asType(l, IteratorRequest).RangeOp != nil
+//@   requires typeIs(l, SnapshotRequest) ==> asType(l, SnapshotRequest).Writer != nil
+//@   ensures [C02.ro.flag]  err == nil && typeIs(l, *regattapb.TxnRequest) ==> typeIs(out, *regattapb.TxnResponse) && asType(out, *regattapb.TxnResponse) != nil && (asType(out, *regattapb.TxnResponse).Succeeded == (forall j int :: 0 <= j && j < len(asType(l, *regattapb.TxnRequest).Compare) ==> holds(old(p.pebble.v.vP), old(p.pebble.v.vV), asType(l, *regattapb.TxnRequest).Compare[j])))
+//@   ensures [C02.ro.nth]   err == nil && typeIs(l, *regattapb.TxnRequest) ==> len(asType(out, *regattapb.TxnResponse).Responses) == (asType(out, *regattapb.TxnResponse).Succeeded ? len(asType(l, *regattapb.TxnRequest).Success) : len(asType(l, *regattapb.TxnRequest).Failure))
+//@   ensures [C01.lookup.idx]  err == nil && typeIs(l, LocalIndexRequest) ==> typeIs(out, *IndexResponse) && asType(out, *IndexResponse) != nil && asType(out, *IndexResponse).Index == (p.pebble.v.vP[IDX()] ? unle64(p.pebble.v.vV[IDX()]) : 0)
+//@   ensures [C03.lookup.lidx] err == nil && typeIs(l, LeaderIndexRequest) ==> typeIs(out, *IndexResponse) && asType(out, *IndexResponse) != nil && asType(out, *IndexResponse).Index == (p.pebble.v.vP[LIDX()] ? unle64(p.pebble.v.vV[LIDX()]) : 0)
+//@   modifies p.pebble.v.vP, p.pebble.v.vV, asType(l, SnapshotRequest).Writer.sdata, asType(l, SnapshotRequest).Writer.slen, asType(l, SnapshotRequest).Writer.nmsg, asType(l, SnapshotRequest).Writer.msg
+//@   loop 0 invariant rangeindex < len(asType(l, *regattapb.TxnRequest).Success)
+//@   loop 0 invariant -1 <= rangeindex && len(ops) == rangeindex + 1 && (isNilSlice(ops) || fresh(ops)) && forall j int :: 0 <= j && j <= rangeindex ==> ops[j] != nil
+//@   loop 1 invariant rangeindex < len(asType(l, *regattapb.TxnRequest).Failure)
+//@   loop 1 invariant -1 <= rangeindex && len(ops) == rangeindex + 1 && (isNilSlice(ops) || fresh(ops)) && forall j int :: 0 <= j && j <= rangeindex ==> ops[j] != nil
+//@   loop 2 invariant -1 <= rangeindex && rangeindex < len(ops) && resp != nil && fresh(resp) && len(resp.Responses) == rangeindex + 1 && (isNilSlice(resp.Responses) || fresh(resp.Responses)) && snapshot != nil && fresh(snapshot)
+//@   loop 2 invariant forall j int :: 0 <= j && j < len(ops) ==> ops[j] != nil
+//@   loop 2 step [C02.ro.view+C10] isNilSlice(ops[rangeindex+1].RangeEnd) ==> respRange(resp.Responses[rangeindex+1]).Count == (old(p.pebble.v.vP)[encK(1, bytesOf(ops[rangeindex+1].Key))] ? 1 : 0)
+//@   loop 2 invariant snapshot.vP == old(p.pebble.v.vP) && snapshot.vV == old(p.pebble.v.vV)
+//@   loop 2 invariant resp.Succeeded == ok && len(ops) == (ok ? len(asType(l, *regattapb.TxnRequest).Success) : len(asType(l, *regattapb.TxnRequest).Failure))
